@@ -33,7 +33,9 @@ Open Scope Z_scope.
 
 (* ---------- addresses ---------- *)
 (* a station as the application layer sees it: LocalStation mac (net = None) or RemoteStation net mac.
-   Ssm.v keys transactions by a Z: an injective code (DeviceRxFacts.peer_code_inj) *)
+   Ssm.v keys transactions by a Z: the MAC octets as base-256 digits behind a leading 1 (so that length counts), times 2^17,
+   plus 0 for a local station or network + 1 — injective for octets < 256 and networks < 65536; peer_decode below is its
+   inverse (DeviceRxFacts.peer_decode_examples; no general lemma is needed by the theorems) *)
 Definition mac_code (m : list N) : Z := fold_left (fun acc b => acc * 256 + Z.of_N b) m 1.
 Definition peer_code (net : option N) (m : list N) : Z :=
   mac_code m * 131072 + match net with None => 0 | Some n => Z.of_N n + 1 end.
@@ -274,7 +276,7 @@ Definition device_rx (st : dev_state) (now : Z) (f : frame) (x : svc) : dev_stat
   end.
 
 (* ---------- a timer of transaction i fires (TaskManager pops it, ServerSSM.process_task) ---------- *)
-(* the address a transaction answers to, back from its key (DeviceRxFacts.peer_decode_code) *)
+(* the address a transaction answers to, back from its key *)
 Fixpoint mac_decode (fuel : nat) (c : Z) (acc : list N) : list N :=
   match fuel with
   | O => acc
